@@ -19,14 +19,14 @@ class Part:
     family: str = ''                # harness family (for evidence grouping)
     tz_replay: bool = False         # counterexamples are replayed under TZ derived from env offsets
     exclude: List[str] = field(default_factory=list)  # extra preconditions from known findings
+    concrete_only: bool = False     # finite obligations: only the authored input is run (on the real code)
 
     def source(self) -> str:
         sig = ', '.join('%s: %s' % (n, t) for n, t in self.params)
         call = ', '.join('%s=%s' % (n, n) for n, _ in self.params)
-        # lone surrogates are outside every symbolic string domain (see hx.valid_text)
-        text = ['hx.valid_text(%s)' % n for n, t in self.params if t == 'str']
-        pre = ''.join('    pre: %s\n' % p for p in list(self.pre) + text
-                      + ['not (%s)' % e for e in self.exclude])
+        # lone surrogates are outside every symbolic string domain: hx.run discards a FAILING path whose
+        # string arguments may contain one (see hx.valid_text); passing paths pay nothing for this
+        pre = ''.join('    pre: %s\n' % p for p in list(self.pre) + ['not (%s)' % e for e in self.exclude])
         return (
             'import struct, datetime, decimal, time, copy\n'
             'from typing import Optional, Union, List, Dict, Tuple\n'
